@@ -70,6 +70,10 @@ class InverterProtocol:
         return self.response_future
 
     def _close_transport(self) -> None:
+        if self._timer:
+            # the pending response timeout belongs to the transport/request that ends here
+            self._timer.cancel()
+            self._timer = None
         if self._transport:
             try:
                 self._transport.close()
